@@ -45,6 +45,9 @@ E2E_REASONS = {
            r"link-left-open-at-stop|fabricated-event-body|synced-outside-link|linked-remote-never-told-linked|"
            r"unexpected-frame-body|frame-decode-error|run-.*|unparsable.*|http-response-unexpected",
     "C14": r"supply-.*|command-.*",
+    # the agent's start/stop handler (one method carrying `#[on_stop] #[on_start]`, stop first) runs before anything
+    # else the lifecycle does and again at stop
+    "C06": r"on-start-not-run-first|on-stop-not-run",
 }
 
 
